@@ -28,11 +28,22 @@ theorem parseNumber_not_ok_on_sep (p : Bool) (b : Bytes) (neg fv : Bool) (x : Na
     (r : Number × Nat) : parseNumber c p o b neg fv ≠ .ok r := by
   intro h
   have hx : b.slc[b.index]? = some x := ((peek_at c .integer b b (some x) hv hp).2.1).symm
+  have hx48 : (some x : Option Nat) ≠ some 48 := by
+    intro e
+    simp only [Option.some.injEq] at e
+    subst e
+    rw [sep48 H] at hs; cases hs
   rw [parseNumber_gr H.rel] at h
   cases hi : integerPhase c b with
   | error e => simp [hi] at h
   | ok ip =>
-    obtain ⟨i1, i2, ⟨m, b1, ds, h8, hdg⟩, i4, i5, i6, i7, i8, i9, i10⟩ := integerPhase_truncS H b ip hv hi
+    obtain ⟨⟨s1, s2, s3, s4, s5⟩, ⟨m, b1, ds, h8, hdg⟩, i4, i5, i6, i7, i8, i9, i10⟩ := integerPhase_truncS H b ip hv hi
+    have hst : ip.start = b := by
+      have := prefixPhase_miss H b b (some x) hp hx48
+      rw [s5, ite_self] at this
+      simp only [Except.ok.injEq, Prod.mk.injEq] at this
+      exact this.2
+    rw [hst] at h8 i5 i7 i8
     have e1 : b1 = b := parse8Digits_stuck .integer b b1 0 m x hx (H.sepM x hs) H.rad h8
     subst e1
     have e2 : ip.byte = b1 := by
